@@ -235,7 +235,13 @@ def is_iter(c):
 
 def evaluate(cases, tag="c10"):
     """cases may carry "enumerate"; returns (variants, codes, errors, observations)"""
-    groups = core.run_impl_parallel("impl_c10.py", cases, chunk=max(1, len(cases) // 64 + 1))
+    # one driver process per CPU (start-up dominates); cases dealt round-robin so that the expensive
+    # (enumerated) ones spread evenly
+    order = sorted(range(len(cases)), key=lambda i: (i % core.NCPU, i))
+    dealt = core.run_impl_parallel("impl_c10.py", [cases[i] for i in order])
+    groups = [None] * len(cases)
+    for i, g in zip(order, dealt):
+        groups[i] = g
     variants, obs = [], []
     for g in groups:
         for v, r in g:
@@ -347,8 +353,8 @@ def run(ctx):
         cases = [ctx.replay["replay"]["case"]]
         n_corpus = 0
     else:
-        n_iter = 170 if ctx.quick else 2600
-        n_one = 110 if ctx.quick else 1500
+        n_iter = 200 if ctx.quick else 2600
+        n_one = 120 if ctx.quick else 1500
         corpus = [copy.deepcopy(c) for c in ITER_CORPUS + ONESHOT_CORPUS]
         n_corpus = len(corpus)
         cases = corpus + [gen_iter(rng, i, ctx.quick) for i in range(n_iter)] \
